@@ -295,7 +295,7 @@ Proof.
   rewrite Hm. eexists. split; [reflexivity|]. split.
   - eapply gupd_bucket; eauto; [apply (lookup_aremove_eq node_eqb)|]. intros m Hne. apply (lookup_aremove_neq node_eqb node_eqb_eq); auto.
   - pose proof (count_aset g s bk (aremove node_eqb n bk) H).
-    assert (length (aremove node_eqb n bk) < length bk) by (apply length_aremove_lt; congruence). lia.
+    assert (length (aremove node_eqb n bk) < length bk) by (apply length_aremove_lt; congruence). unfold bucket in *. lia.
 Qed.
 
 Lemma del_edge_spec (g : graph) s a b (na : nbrs) l :
@@ -308,7 +308,7 @@ Proof.
   rewrite Hm. eexists. split; [reflexivity|]. split.
   - eapply gupd_bucket; eauto; [apply (lookup_aset_eq node_eqb node_eqb_eq)|]. intros m Hne. apply (lookup_aset_neq node_eqb node_eqb_eq); auto.
   - pose proof (count_aset g s bk (aset node_eqb a (aremove node_eqb b na) bk) H).
-    rewrite (length_aset_present node_eqb) in H0; [lia | congruence].
+    rewrite (length_aset_present node_eqb) in H0; [unfold bucket, nbrs in *; lia | congruence].
 Qed.
 
 Lemma glookup_has_bucket (g : graph) s n (nb : nbrs) : glookup g s n = Some nb -> has_bucket g s.
